@@ -1,0 +1,69 @@
+//go:build verif
+
+// Contracts for the relayer registry (C33 consumed requests, C36 admission key, C18 witnesses),
+// read by /verif/gocv.
+package relayer_manager
+
+//@ spec rmKey(prefix string, id uint64) KeyT = K2(utils.RelayerManagerContractAddress, prefix, u64le(id))
+//@ spec relayerKey(a common.Address) KeyT = K2(utils.RelayerManagerContractAddress, "relayer", a)
+
+//@ func putRelayer
+//@   property C36, C33
+//@   mode abstract
+//@   requires native != nil
+//@   modifies Store
+//@   ensures err == nil && Store == upd(old(Store), relayerKey(relayer), Store[relayerKey(relayer)]) && Store[relayerKey(relayer)] != None
+
+//@ func getRelayerApply
+//@   property C33
+//@   mode abstract
+//@   requires native != nil
+//@   modifies nothing
+//@   ensures err == nil ==> r0 != nil && Store[rmKey("relayerApply", applyID)] != None
+
+//@ func getRelayerRemove
+//@   property C33
+//@   mode abstract
+//@   requires native != nil
+//@   modifies nothing
+//@   ensures err == nil ==> r0 != nil && Store[rmKey("relayerRemove", removeID)] != None
+
+//@ func ApproveRegisterRelayer
+//@   property C33, C18
+//@   mode abstract
+//@   requires native != nil && native.tx != nil
+//@   modifies Store
+//@   ghost var wit bool = false
+//@   ghost var cid uint64 = 0
+//@   ghost var fired bool = false
+//@   set after "err := utils.ValidateOwner(native, params.Address)" : wit := err == nil
+//@   set after "err := utils.ValidateOwner(native, params.Address)" : cid := params.ID
+//@   set after "ok, err := node_manager.CheckConsensusSigns(native, APPROVE_REGISTER_RELAYER, utils.GetUint64Bytes(params.ID), params.Address)" : fired := ok && err == nil
+//@   callsite[c18-owner] ValidateOwner#1 requires arg1 == params.Address
+//@   callsite[c32-separation] CheckConsensusSigns#1 requires arg1 == "approveRegisterRelayer" && bytes(arg2) == u64le(params.ID) && arg3 == params.Address
+//@   ensures[c18-witness] Store != old(Store) ==> wit
+//@   -- C33: once approved and applied, the registration request is no longer pending
+//@   ensures[c33-consumed] r1 == nil && fired ==> Store[rmKey("relayerApply", cid)] == None
+//@   ensures[c33-requested] fired ==> old(Store)[rmKey("relayerApply", cid)] != None
+//@   -- relayers are registered only when the quorum fired
+//@   ensures[c36-onlyapproved] !fired ==> forall a common.Address :: Store[relayerKey(a)] == old(Store)[relayerKey(a)]
+
+//@ func ApproveRemoveRelayer
+//@   property C33, C18
+//@   mode abstract
+//@   requires native != nil && native.tx != nil
+//@   modifies Store
+//@   ghost var wit bool = false
+//@   ghost var cid uint64 = 0
+//@   ghost var fired bool = false
+//@   set after "err := utils.ValidateOwner(native, params.Address)" : wit := err == nil
+//@   set after "err := utils.ValidateOwner(native, params.Address)" : cid := params.ID
+//@   set after "ok, err := node_manager.CheckConsensusSigns(native, APPROVE_REMOVE_RELAYER, utils.GetUint64Bytes(params.ID), params.Address)" : fired := ok && err == nil
+//@   callsite[c18-owner] ValidateOwner#1 requires arg1 == params.Address
+//@   callsite[c32-separation] CheckConsensusSigns#1 requires arg1 == "approveRemoveRelayer" && bytes(arg2) == u64le(params.ID) && arg3 == params.Address
+//@   ensures[c18-witness] Store != old(Store) ==> wit
+//@   -- C33: once approved and applied, the removal request is no longer pending
+//@   ensures[c33-consumed] r1 == nil && fired ==> Store[rmKey("relayerRemove", cid)] == None
+//@   ensures[c33-requested] fired ==> old(Store)[rmKey("relayerRemove", cid)] != None
+//@   ensures[c36-onlyapproved] !fired ==> forall a common.Address :: Store[relayerKey(a)] == old(Store)[relayerKey(a)]
+//@   loop 1 invariant Store[rmKey("relayerRemove", cid)] == old(Store)[rmKey("relayerRemove", cid)]
